@@ -4,6 +4,7 @@ package main
 import (
 	"fmt"
 	"os"
+	"strconv"
 	"time"
 
 	"verif/mc/core"
@@ -49,6 +50,12 @@ var props = map[string]prop{
 func main() {
 	if len(os.Args) >= 2 && os.Args[1] == "C10-alloc-worker" {
 		c10.AllocWorker()
+		return
+	}
+	if len(os.Args) >= 5 && os.Args[1] == "C10-selector-worker" {
+		from, _ := strconv.Atoi(os.Args[3])
+		stride, _ := strconv.Atoi(os.Args[4])
+		c10.SelectorWorker(os.Args[2], from, stride)
 		return
 	}
 	if len(os.Args) < 3 {
